@@ -137,6 +137,18 @@ static bool apply(Universe &U, const hx::Sexp &op, bool &known)
     if (h == "ae") return Variable::addEquivalence(var(U, num(op[1])), var(U, num(op[2])));
     if (h == "re") return Variable::removeEquivalence(var(U, num(op[1])), var(U, num(op[2])));
     if (h == "rae") { auto v = var(U, num(op[1])); if (v != nullptr) v->removeAllEquivalences(); return true; }
+    if (h == "rel") {
+        // the owner drops its last reference to a variable that no component owns: the object dies (the weak entries that
+        // point to it expire) and the identifier stands for a fresh variable of the same name
+        size_t i = num(op[1]);
+        auto v = var(U, i);
+        if (v == nullptr || v->parent() != nullptr || v.use_count() != 2) return false;   // the universe and this copy are the only owners
+        auto fresh = Variable::create(v->name());
+        v = nullptr;
+        U.v[i - 5] = fresh;
+        U.addr[i] = fresh.get();
+        return true;
+    }
     if (h == "rc") { auto ce = entityOf(U, num(op[1])); return ce != nullptr && ce->replaceComponent(num(op[2]), comp(U, num(op[3]))); }
     if (h == "ru") { auto m = model(U, num(op[1])); return m != nullptr && m->replaceUnits(num(op[2]), units(U, num(op[3]))); }
     known = false;
